@@ -252,11 +252,97 @@ fn batch_swap() -> String {
     format!("alone={} batch={}", single, batch)
 }
 
+fn catch(f: impl FnOnce() -> String + std::panic::UnwindSafe) -> String {
+    std::panic::set_hook(Box::new(|_| {}));
+    match std::panic::catch_unwind(f) {
+        Ok(s) => s,
+        Err(e) => {
+            let msg = e.downcast_ref::<String>().cloned().or_else(|| e.downcast_ref::<&str>().map(|s| s.to_string())).unwrap_or_default();
+            format!("panic ({})", msg)
+        }
+    }
+}
+
+/// an otherwise honest aggregate whose batch path claims leaf index usize::MAX
+fn merkle_index_overflow() -> String {
+    let params = Parameters { m: 4, k: 2, phi_f: 1.0 };
+    let (signers, clerk) = setup(params, &[10, 20]);
+    let msg = b"verif-replay".to_vec();
+    let a = with_indexes(&signers[0].create_single_signature(&msg).unwrap(), &[0, 1]);
+    let mut v = agg_json(&clerk, &[a], &msg);
+    v["batch_proof"]["indices"] = serde_json::json!([u64::MAX]);
+    let forged: mithril_stm::AggregateSignature<D> = serde_json::from_value(v).unwrap();
+    let avk = clerk.compute_aggregate_verification_key();
+    catch(move || verdict(forged.verify(&msg, &avk, &params, None, None)))
+}
+
+/// an aggregate with no signature and an empty batch path, verified under k = 0
+fn merkle_empty_proof() -> String {
+    let params = Parameters { m: 4, k: 2, phi_f: 1.0 };
+    let (signers, clerk) = setup(params, &[10, 20]);
+    let msg = b"verif-replay".to_vec();
+    let a = with_indexes(&signers[0].create_single_signature(&msg).unwrap(), &[0, 1]);
+    let mut v = agg_json(&clerk, &[a], &msg);
+    v["signatures"] = serde_json::json!([]);
+    v["batch_proof"]["indices"] = serde_json::json!([]);
+    v["batch_proof"]["values"] = serde_json::json!([]);
+    let forged: mithril_stm::AggregateSignature<D> = serde_json::from_value(v).unwrap();
+    let avk = clerk.compute_aggregate_verification_key();
+    let zero_k = Parameters { k: 0, ..params };
+    catch(move || verdict(forged.verify(&msg, &avk, &zero_k, None, None)))
+}
+
+/// forged membership claims through the aggregate verifier: every one must be rejected
+fn merkle_battery() -> String {
+    let params = Parameters { m: 4, k: 2, phi_f: 1.0 };
+    let (signers, clerk) = setup(params, &[10, 20, 30]);
+    let msg = b"verif-replay".to_vec();
+    let avk = clerk.compute_aggregate_verification_key();
+    let a = with_indexes(&signers[0].create_single_signature(&msg).unwrap(), &[0, 1]);
+    let b = with_indexes(&signers[1].create_single_signature(&msg).unwrap(), &[0, 1]);
+    let va = agg_json(&clerk, &[a], &msg);
+    let vb = agg_json(&clerk, &[b], &msg);
+    let mut out = Vec::new();
+    let mut check = |name: &str, v: serde_json::Value| {
+        let r = match serde_json::from_value::<mithril_stm::AggregateSignature<D>>(v) {
+            Ok(f) => {
+                let (m2, avk2, p2) = (msg.clone(), avk.clone(), params);
+                catch(move || verdict(f.verify(&m2, &avk2, &p2, None, None)))
+            }
+            Err(_) => "rejected (decode)".to_string(),
+        };
+        let bad = (name == "honest") != r.starts_with("accepted");
+        out.push(format!("{}={}{}", name, if bad { "VIOLATED " } else { "" }, r.chars().take(24).collect::<String>()));
+    };
+    // honest control
+    check("honest", va.clone());
+    // a's path with b's registered party (leaf replaced)
+    let mut v = va.clone();
+    v["signatures"][0][1] = vb["signatures"][0][1].clone();
+    check("leaf_replaced", v);
+    // a's entry, b's path (path nodes altered)
+    let mut v = va.clone();
+    v["batch_proof"]["values"] = vb["batch_proof"]["values"].clone();
+    check("path_values_swapped", v);
+    // index moved
+    let mut v = va.clone();
+    v["batch_proof"]["indices"] = vb["batch_proof"]["indices"].clone();
+    check("index_moved", v);
+    // stake edited (leaf = (vk, stake))
+    let mut v = va.clone();
+    v["signatures"][0][1][1] = serde_json::json!(11);
+    check("stake_edited", v);
+    out.join(" ")
+}
+
 fn main() {
     let a: Vec<String> = std::env::args().skip(1).collect();
     let out = match a.first().map(|s| s.as_str()) {
         Some("index_at_m") => index_at_m(),
         Some("duplicate") => duplicate(),
+        Some("merkle_index_overflow") => merkle_index_overflow(),
+        Some("merkle_empty_proof") => merkle_empty_proof(),
+        Some("merkle_battery") => merkle_battery(),
         Some("decode") => decode(&a[1], &a[2]),
         Some("sign_vs_verify") => sign_vs_verify(),
         Some("cross_dup") => cross_dup(),
